@@ -218,7 +218,7 @@ pub fn build(tr: &Traj, tp: &Templates, steps: &[Step]) -> Option<Vec<Report1>> 
 }
 
 pub fn run_decoder(reports: &[&Report1], reference: Option<Position>) -> Result<Vec<Option<(f64, f64)>>, String> {
-    let mut msgs: Vec<TimedMessage> = reports.iter().map(|r| TimedMessage { timestamp: r.t, frame: vec![], message: Some(r.msg.clone()), metadata: vec![], decode_time: None }).collect();
+    let mut msgs: Vec<TimedMessage> = reports.iter().map(|r| TimedMessage { timestamp: r.t, frame: vec![], message: Some(r.msg.clone()), metadata: vec![], decode_time: None, ..Default::default() }).collect();
     guarded(move || {
         decode_positions(&mut msgs, reference, &None);
         msgs.iter().map(|m| m.message.as_ref().and_then(position_of)).collect()
